@@ -379,14 +379,14 @@ def install_capture():
     tt._c17_wrapped = True
 
 
-def run_main(spec, args, workdir, rng=None):
+def run_main(spec, args, workdir, rng=None, cap_cls=None):
     """the real torchtree.torchtree.main(), in-process. -> (Capture, error or None)"""
     torch, tt = T()["torch"], T()["tt"]
     install_capture()
     os.makedirs(workdir, exist_ok=True)
     with open(os.path.join(workdir, "spec.json"), "w") as f:
         json.dump(spec, f)
-    cap = Capture()
+    cap = (cap_cls or Capture)()
     cap.workdir = workdir
     cap.rng_at_start = rng
     _CUR["cap"] = cap
@@ -1477,6 +1477,165 @@ def subprocess_restart(ck: Check, runner: Runner, cfg):
                             + (f"; it rewrote the checkpoint of iteration {k}" if extra else ""), replay))
 
 
+
+# ============================================================================ several algorithms, several checkpoint files
+class MultiCapture:
+    """like Capture, for a configuration that runs SEVERAL algorithms one after the other, each writing its own checkpoint:
+    one global sequence of (algorithm id, iteration label, its parameters) and, at every checkpoint written by any of them,
+    a copy of EVERY checkpoint file that exists at that moment (what a killed process leaves behind)"""
+
+    def __init__(self):
+        self.algos = []
+        self.rec = []
+        self.snaps = {}
+        self.rng_at_start = None
+        self.workdir = None
+        self.final = {}
+
+    def on_object(self, obj, dic):
+        torch = T()["torch"]
+        import numpy as np
+
+        name = type(obj).__name__
+        if name not in ("Optimizer", "MCMC") or any(obj is a for a in self.algos):
+            return
+        self.algos.append(obj)
+        cap = self
+
+        def record():
+            cap.rec.append((obj.id, obj._epoch, [p.tensor.detach().clone() for p in obj.parameters]))
+
+        if name == "Optimizer":
+            inner = obj.optimizer.step
+
+            def step(*a, **k):
+                r = inner(*a, **k)
+                record()
+                return r
+
+            obj.optimizer.step = step
+        else:
+            for op in obj._operators:
+                def tune(*a, _inner=op.tune, **k):
+                    record()
+                    return _inner(*a, **k)
+
+                op.tune = tune
+        inner_save = obj.save_full_state
+
+        def save(*a, **k):
+            r = inner_save(*a, **k)
+            done = len(cap.rec)
+            keep = {}
+            for f in sorted(os.listdir(cap.workdir)):
+                if f.startswith("stage") and f.endswith(".json"):
+                    dst = os.path.join(cap.workdir, f"saved-{done}-{f}")
+                    shutil.copyfile(os.path.join(cap.workdir, f), dst)
+                    keep[f] = dst
+            cap.snaps[done] = {"files": keep, "rng": (torch.get_rng_state(), np.random.get_state()), "by": obj.id}
+            return r
+
+        obj.save_full_state = save
+        inner_run = obj.run
+
+        def run():
+            if cap.rng_at_start is not None:
+                torch.set_rng_state(cap.rng_at_start[0])
+                np.random.set_state(cap.rng_at_start[1])
+            elif obj is cap.algos[0]:
+                np.random.seed(int(torch.initial_seed()) % (2 ** 32))
+            r = inner_run()
+            cap.final[obj.id] = copy.deepcopy(obj.state_dict())
+            return r
+
+        obj.run = run
+
+
+def spec_stages(stages, shared_param, shared_file):
+    """stage = ('opt', iterations) | ('mcmc', iterations): algorithms run in the order of the list; stage i works on parameter
+    p<i> (or all on p0 when shared_param) and checkpoints into stage<i>.json (or all into stage0.json when shared_file)"""
+    s = []
+    n_par = 1 if shared_param else len(stages)
+    for i in range(n_par):
+        s.append(param(f"p{i}", [1.0 + i, 2.0, 0.5]))
+        s.append({"id": f"joint{i}", "type": "JointDistributionModel",
+                  "distributions": [{"id": f"d{i}", "type": "Distribution", "distribution": "torch.distributions.LogNormal", "x": f"p{i}",
+                                     "parameters": {"loc": param(f"d{i}.loc", [0.1 * (i + 1)]), "scale": param(f"d{i}.scale", [0.75])}}]})
+    for i, (kind, iters) in enumerate(stages):
+        j = 0 if shared_param else i
+        ckf = "stage0.json" if shared_file else f"stage{i}.json"
+        if kind == "opt":
+            s.append({"id": f"alg{i}", "type": "Optimizer", "algorithm": "torch.optim.Adam", "loss": f"joint{j}", "parameters": [f"p{j}"], "maximize": True,
+                      "iterations": iters, "checkpoint": ckf, "checkpoint_frequency": 2, "options": {"lr": 0.05},
+                      "scheduler": {"id": f"sch{i}", "type": "Scheduler", "scheduler": "torch.optim.lr_scheduler.StepLR", "step_size": 2, "gamma": 0.5}})
+        else:
+            s.append({"id": f"alg{i}", "type": "MCMC", "joint": f"joint{j}", "iterations": iters, "checkpoint": ckf, "checkpoint_frequency": 2, "every": 0,
+                      "operators": [{"id": f"op{i}", "type": "ScalerOperator", "parameters": [f"p{j}"], "scaler": 0.5, "weight": 1.0, "acceptance_window_length": 3}],
+                      "loggers": []})
+    return s
+
+
+def part_stages(ck: Check, runner: Runner, only=None, args=None):
+    """the restart ENTRY POINT with several algorithms and several -c files: interrupt in the first and in a later stage, restart
+    through torchtree.main with every checkpoint file the killed run left, in every order when the stages share no parameter (in
+    the order they were written when they do: a later file overrides an earlier one), and compare the continued global trajectory
+    and the final state of every algorithm with the uninterrupted run"""
+    import itertools
+
+    layouts = [
+        ("optimizer→optimizer", [("opt", 4), ("opt", 6)], False, False),
+        ("optimizer→mcmc", [("opt", 4), ("mcmc", 6)], False, False),
+        ("mcmc→optimizer", [("mcmc", 4), ("opt", 4)], False, False),
+        ("optimizer→optimizer→mcmc", [("opt", 2), ("opt", 4), ("mcmc", 4)], False, False),
+        ("optimizer→optimizer on the same parameter", [("opt", 4), ("opt", 6)], True, False),
+        ("optimizer→optimizer, one shared checkpoint file", [("opt", 4), ("opt", 6)], False, True),
+    ]
+    args = args or ["--dtype", "float64", "-s", str(ck.rng.randrange(1, 1000))]
+    for label, stages, shared_param, shared_file in layouts:
+        if only is not None and label != only:
+            continue
+        fn = lambda: spec_stages(stages, shared_param, shared_file)  # noqa: E731
+        full, err = run_main(fn(), args, runner.wd(), cap_cls=MultiCapture)
+        if err is not None or not full.snaps:
+            runner.skipped[f"stages {label}: uninterrupted run raises {err['type'] if err else 'nothing'}"] += 1
+            continue
+        for g in sorted(full.snaps):
+            snap = full.snaps[g]
+            files = sorted(snap["files"])
+            orders = list(itertools.permutations(files)) if not shared_param else [tuple(files)]
+            for order in orders:
+                w = runner.wd()
+                os.makedirs(w, exist_ok=True)
+                cargs = []
+                for f in order:
+                    shutil.copyfile(snap["files"][f], os.path.join(w, f))
+                    cargs += ["-c", f]
+                res, err = run_main(fn(), args + cargs, w, rng=snap["rng"], cap_cls=MultiCapture)
+                ck.case(("stages", label, g, order), bucket=f"restart-stages/{label}/{len(order)} file(s)")
+                replay = {"kind": "stages", "layout": label, "stages": stages, "shared_param": shared_param, "shared_file": shared_file, "args": args,
+                          "interrupt_after_global_step": g, "checkpoint_written_by": snap["by"], "files": list(order)}
+                tag = f"{label}: interrupted after global step {g} (checkpoint of {snap['by']}), restarted with {' '.join(cargs)}"
+                sigl = "shared-file" if shared_file else ("several-files" if len(order) > 1 else "one-file")
+                if err is not None:
+                    runner.fail.append((f"stages:restart-raises:{sigl}:{err['type']}", f"{tag}: raises {err['type']}: {err['msg']}", dict(replay, error=err)))
+                    continue
+                want = [(a, l) for a, l, _ in full.rec[g:]]
+                got = [(a, l) for a, l, _ in res.rec]
+                if want != got:
+                    again = [x for x in got if x not in want]
+                    runner.fail.append((f"stages:resume-differs:{sigl}:iterations",
+                                        f"{tag}: the restarted run performs {got[:8]}{'…' if len(got) > 8 else ''}, the uninterrupted run continues with "
+                                        f"{want[:8]}{'…' if len(want) > 8 else ''}" + (f" — {again[:4]} run again" if again else ""), replay))
+                    continue
+                if not _same_states([(l, p_) for _, l, p_ in full.rec[g:]], [(l, p_) for _, l, p_ in res.rec]):
+                    runner.fail.append((f"stages:resume-differs:{sigl}:states", f"{tag}: the continued trajectory leaves the uninterrupted one", replay))
+                    continue
+                for aid, st in full.final.items():
+                    for d in all_diffs(allowed_canon(st), allowed_canon(res.final.get(aid, {}))):
+                        runner.fail.append((f"stages:final-state-differs:{sigl}:{_diff_class(d)}", f"{tag}: final state of {aid} differs: {d}", dict(replay, diff=d)))
+                        break
+
+
 SCAN_FILES = ("torchtree/core/utils.py", "torchtree/core/parameter_encoder.py", "torchtree/core/parameter_utils.py", "torchtree/core/parameter.py",
               "torchtree/inference/hmc/adaptation.py", "torchtree/ops/welford.py", "torchtree/optim/optimizer.py",
               "torchtree/inference/mcmc/mcmc.py", "torchtree/inference/mcmc/operator.py", "torchtree/inference/hmc/operator.py",
@@ -1603,6 +1762,7 @@ def run(ck: Check):
         runnable = [c for c in ocfgs if c["algo"] in ("Adam", "SGD", "RMSprop", "Adagrad")]
         for cfg in ck.rng.sample(runnable, min(len(runnable), 6 if ck.thorough() else 1)):
             subprocess_restart(ck, runner, cfg)
+        part_stages(ck, runner)
         failure_paths(ck, runner)
         ck.extra["tensor_constructors_without_dtype_or_device"] = constructor_scan()
         # every generated class met on a live object?
@@ -1673,6 +1833,21 @@ def replay(path: str) -> int:
             bad = back != want
         print("VIOLATES" if bad else "ok")
         return 1 if bad else 0
+    if obj.get("kind") == "stages":
+        ck = Check("C17", "quick", 0)
+        root = Path(tempfile.mkdtemp(prefix="c17r-"))
+        try:
+            T()
+            _lean, _ok, _note, table = tr_statedict.translate(REPO)
+            runner = Runner(ck, None, table, root)
+            part_stages(ck, runner, only=obj["layout"], args=obj["args"])
+            hits = [f for f in runner.fail if f[0] == obj.get("signature")]
+            for sig, what, _r in runner.fail:
+                print(("* " if sig == obj.get("signature") else "  ") + sig + " — " + what[:300])
+            print("VIOLATES" if hits else ("other failures only" if runner.fail else "ok"))
+            return 1 if hits else 0
+        finally:
+            shutil.rmtree(root, ignore_errors=True)
     if "config" not in obj:
         print("replay names broken obligations only:", obj.get("broken_obligations"))
         return 1
